@@ -332,6 +332,11 @@ def check_cfg(ctx, fx, cfg):
     if cfg != "bare":
         from props import c17 as _c17
         _c17.check_join(ctx, fx, cfg, "R15.6")
+    # R15.8 (shared with C13) "stop from the actor's own context succeeds, its timers keep firing" also for an actor attached to a
+    # stream that is always ready: the stream loop's select is fair, or polls the mailbox first
+    if cfg != "bare":
+        from props import c13 as _c13
+        core.shared_from(ctx, _c13.check_cfg, fx, cfg, "R15.8", ("R13.4",), r"fair-select", 1, "stream loop select")
     # R15.7 "its timers keep firing": while the actor is held the timers it registered go on — a timer body ends only on a
     # tick the mailbox refused (the actor is gone), never because a tick took long or a reply did not come (shared with C10)
     # (the timer APIs exist only with a runtime feature)
